@@ -115,7 +115,12 @@ type Drv struct {
 	nPub atomic.Int64
 	nTok atomic.Int64
 	rnd  *rand.Rand
+	otelDone func(lines [][]byte, closer bool) map[string]any // compares the SDK's spans and counters with the recorded trace
 }
+
+// NewOtel, when set, gives every bus with observability a real OpenTelemetry implementation in front of the
+// recording one, and a function that checks what the SDK recorded against the recorded trace.
+var NewOtel func() (eb.Observability, func(lines [][]byte, closer bool) map[string]any)
 
 type closerStore struct{ d *Drv }
 
@@ -130,7 +135,10 @@ func (s *closerStore) Close() error {
 	return nil
 }
 
-type obs struct{ d *Drv }
+type obs struct {
+	d    *Drv
+	otel eb.Observability // optional second implementation (the real OpenTelemetry one), called first
+}
 
 func pubOf(event any) int {
 	if p, ok := event.(gen.PubIDer); ok {
@@ -140,23 +148,44 @@ func pubOf(event any) int {
 }
 
 func (o obs) OnPublishStart(ctx context.Context, name string, event any) context.Context {
+	if o.otel != nil {
+		ctx = o.otel.OnPublishStart(ctx, name, event)
+	}
 	p := pubOf(event)
 	o.d.Rec.Emit(map[string]any{"e": "pstart", "p": p, "ok": name == eb.EventType(event) && ctxPub(ctx, keyPub) == p})
 	return context.WithValue(ctx, keyObsPub, p)
 }
 func (o obs) OnPublishComplete(ctx context.Context, name string) {
+	if o.otel != nil {
+		o.otel.OnPublishComplete(ctx, name)
+	}
 	o.d.Rec.Emit(map[string]any{"e": "pdone", "p": ctxPub(ctx, keyObsPub), "ok": true})
 }
 func (o obs) OnHandlerStart(ctx context.Context, name string, async bool) context.Context {
+	if o.otel != nil {
+		ctx = o.otel.OnHandlerStart(ctx, name, async)
+	}
 	tok := int(o.d.nTok.Add(1))
 	o.d.Rec.Emit(map[string]any{"e": "hstart", "p": ctxPub(ctx, keyObsPub), "async": async, "tok": tok})
 	return context.WithValue(ctx, keyTok, tok)
 }
 func (o obs) OnHandlerComplete(ctx context.Context, d time.Duration, err error) {
+	if o.otel != nil {
+		o.otel.OnHandlerComplete(ctx, d, err)
+	}
 	o.d.Rec.Emit(map[string]any{"e": "hdone", "p": ctxPub(ctx, keyObsPub), "tok": ctxPub(ctx, keyTok), "err": err != nil})
 }
-func (o obs) OnPersistStart(ctx context.Context, name string, pos int64) context.Context { return ctx }
-func (o obs) OnPersistComplete(ctx context.Context, d time.Duration, err error)          {}
+func (o obs) OnPersistStart(ctx context.Context, name string, pos int64) context.Context {
+	if o.otel != nil {
+		ctx = o.otel.OnPersistStart(ctx, name, pos)
+	}
+	return ctx
+}
+func (o obs) OnPersistComplete(ctx context.Context, d time.Duration, err error) {
+	if o.otel != nil {
+		o.otel.OnPersistComplete(ctx, d, err)
+	}
+}
 
 func ctxPub(ctx context.Context, k ctxKey) int {
 	if v, ok := ctx.Value(k).(int); ok {
@@ -170,7 +199,11 @@ func NewDrv(cfg Cfg, rec *Recorder, seed uint64) *Drv {
 	d := &Drv{Rec: rec, cfg: cfg, ctxs: map[string]ctxPair{}, rnd: rand.New(rand.NewPCG(seed, 7))}
 	var opts []eb.Option
 	if cfg.Obs {
-		opts = append(opts, eb.WithObservability(obs{d}))
+		o := obs{d: d}
+		if NewOtel != nil {
+			o.otel, d.otelDone = NewOtel()
+		}
+		opts = append(opts, eb.WithObservability(o))
 	}
 	hook := func(kind, ev string, wantCtx bool) func(ctx context.Context, t reflect.Type, event any) {
 		return func(ctx context.Context, t reflect.Type, event any) {
@@ -401,6 +434,9 @@ func RunScript(s Script, rec *Recorder, seed uint64, watchdog time.Duration) (fi
 		wg.Wait()
 		if !s.NoFinalWait {
 			d.Exec(1, Op{Op: "wait"})
+		}
+		if d.otelDone != nil {
+			rec.Emit(d.otelDone(rec.Lines(), s.Cfg.Closer))
 		}
 		done <- esc.Load()
 	}()
